@@ -1,5 +1,5 @@
 """Write a generated program batch as a cargo crate and describe it."""
-import os, json, random, hashlib
+import os, json, random, hashlib, shutil
 import gen, emit
 from common import ROOT, REPO, WORK
 
@@ -61,6 +61,33 @@ def write_if_changed(path, text):
     os.makedirs(os.path.dirname(path), exist_ok=True)
     open(path, "w").write(text)
     return True
+
+
+def make_single(seed, n_traits, name, module, drop=(), lite=False):
+    """The crate of make_batch reduced to ONE trait module, optionally without some of its methods
+    (structural shrinking of a failing program)."""
+    rng = random.Random(seed * 1000003 + n_traits)
+    trait = None
+    for k in range(n_traits):
+        trng = random.Random(rng.getrandbits(64))
+        t = gen.gen_trait(trng, f"Tr{k}", f"t{k}", tindex=k)
+        if f"m{k}" == module:
+            trait = t
+    if trait is None:
+        raise ValueError(f"no trait module {module} in batch ({seed}, {n_traits})")
+    full = trait
+    if drop:
+        trait = trait.without(set(drop))
+    d = os.path.join(WORK, name)
+    shutil.rmtree(os.path.join(d, "src"), ignore_errors=True)
+    os.makedirs(os.path.join(d, "src"), exist_ok=True)
+    write_if_changed(os.path.join(d, "Cargo.toml"), CARGO.format(name=name.replace("-", "_"), repo=REPO, root=ROOT))
+    lock = os.path.join(d, "Cargo.lock")
+    if not os.path.exists(lock):
+        open(lock, "w").write(open(os.path.join(ROOT, "harness", "Cargo.lock")).read())
+    write_if_changed(os.path.join(d, "src", f"{module}.rs"), emit.module_src(trait, lite=lite))
+    write_if_changed(os.path.join(d, "src", "main.rs"), MAIN.format(mods=f"mod {module};", runs=RUN.format(mod=module, tname=trait.name)))
+    return d, full, trait
 
 
 def make_batch(seed, n_traits, name, exclude=(), lite=()):
